@@ -11,7 +11,7 @@ import (
 	"github.com/openconfig/goyang/pkg/yang"
 )
 
-func typ(b *strings.Builder, t *yang.YangType, ind string, depth int) {
+func typ(b *strings.Builder, t *yang.YangType, ind string, depth int, pos bool) {
 	if t == nil {
 		fmt.Fprintf(b, "%stype <nil>\n", ind)
 		return
@@ -29,14 +29,14 @@ func typ(b *strings.Builder, t *yang.YangType, ind string, depth int) {
 	if t.IdentityBase != nil {
 		fmt.Fprintf(b, " idbase=%s vals=[", t.IdentityBase.PrefixedName())
 		for _, v := range t.IdentityBase.Values {
-			fmt.Fprintf(b, "%s ", idName(v))
+			fmt.Fprintf(b, "%s ", idName(v, pos))
 		}
 		b.WriteString("]")
 	}
 	b.WriteString("\n")
 	if depth < 8 {
 		for _, m := range t.Type {
-			typ(b, m, ind+"  |", depth+1)
+			typ(b, m, ind+"  |", depth+1, pos)
 		}
 	}
 }
@@ -86,7 +86,7 @@ func entry(b *strings.Builder, e *yang.Entry, ind string, pos bool) {
 		b.WriteString("\n")
 	}
 	if e.Type != nil || e.Kind == yang.LeafEntry {
-		typ(b, e.Type, ind+"  :", 0)
+		typ(b, e.Type, ind+"  :", 0, pos)
 	}
 	for _, err := range e.Errors {
 		fmt.Fprintf(b, "%s  !error %s\n", ind, err)
@@ -152,10 +152,17 @@ func Set(ms *yang.Modules, errs []error, pos bool) string {
 			}
 			e := yang.ToEntry(m)
 			entry(&b, e, "  ", pos)
-			for _, id := range e.Identities {
+			ids := append([]*yang.Identity{}, e.Identities...)
+			if !pos {
+				// (masked mode compares a module with the same module split into
+				// submodules: which file an identity stands in decides its place in
+				// this list, and is not to matter)
+				sort.SliceStable(ids, func(i, j int) bool { return ids[i].Name < ids[j].Name })
+			}
+			for _, id := range ids {
 				fmt.Fprintf(&b, "  identity %s:", id.Name)
 				for _, v := range id.Values {
-					fmt.Fprintf(&b, " %s", idName(v))
+					fmt.Fprintf(&b, " %s", idName(v, pos))
 				}
 				b.WriteString("\n")
 			}
@@ -166,8 +173,16 @@ func Set(ms *yang.Modules, errs []error, pos bool) string {
 
 // idName names an identity by the module (name and revision) that defines it, not by its prefix: two modules may
 // declare the same prefix, and then prefix:name does not tell their identities apart.
-func idName(v *yang.Identity) string {
+func idName(v *yang.Identity, pos bool) string {
 	if r := yang.RootNode(v); r != nil {
+		if !pos {
+			// masked mode: the module the identity belongs to, whichever of its files
+			// defines it
+			if r.Kind() == "submodule" && r.BelongsTo != nil {
+				return r.BelongsTo.Name + "/" + v.Name
+			}
+			return r.Name + "/" + v.Name
+		}
 		return r.FullName() + "/" + v.PrefixedName()
 	}
 	return "?/" + v.PrefixedName()
